@@ -38,7 +38,20 @@ case "$prop" in
   C13)        # E2 only
     OVL=""; build_e2
     if [ "$mode" = "--replay" ]; then exec "$BIN/vsched" -prop "$prop" -replay "$1"; fi
-    VERIF_GOMAXPROCS=1 exec "$BIN/vsched" -prop "$prop" -tier "$mode" -root "$OUT" "$@";;
+    VERIF_GOMAXPROCS=1 "$BIN/vsched" -prop "$prop" -tier "$mode" -root "$OUT" "$@"; rc=$?
+    if [ "$mode" = thorough ] && [ $rc -eq 0 ]; then
+      # supplementary (not the deciding step): the repository's own server tests free-running under the race
+      # detector, for memory locations the rewriter does not instrument and for the *net.UDPConn / TLS paths the
+      # scheduler cannot host. Only a race report counts; a test that fails for load reasons does not.
+      log="$OUT/evidence/C13.race.log"
+      (cd /repo && go test ${VERIF_OVERLAY:+-overlay=$VERIF_OVERLAY} -race -vet=off -count=1 -run 'Shutdown|Serving|InProgress|StartStop|HandlerClose|ResponseAfterClose|ResponseDoubleClose' . >"$log" 2>&1)
+      if grep -q "WARNING: DATA RACE" "$log"; then
+        echo "VIOLATION property=C13 replay=$log"; echo "  key=race-detector/free-running-server-tests (see the log)"; rc=1
+      else
+        echo "supplementary -race pass over the repository's server tests: no race reported"
+      fi
+    fi
+    exit $rc;;
   C12|C14)    # E1/E3 part in vcheck, then the E2 part appended to the same evidence file
     build ./cmd/vcheck "$BIN/vcheck"
     ( OVL=""; build_e2 )
